@@ -22,10 +22,12 @@ struct VarDerived : VarBase { void log(const char *, ...); };
 struct NE { virtual void f(int) = 0; virtual int g() const = 0; };
 struct NEDerived : NE { void f(int) noexcept override; auto g() const -> int; };
 struct NEStill : NE { void f(int); int g(); };
+struct CM { const int x; };
+struct CMI { const int x = 3; };
 """
 # class -> (implicit default ctor exported, implicit copy ctor exported)
 EXPECT = {"B": (False, False), "D": (True, True), "DF": (True, True), "DO": (True, True), "StillAbstract": (False, False),
-          "P": (False, False), "Q": (False, False), "M": (False, False), "DerivedFromProtDtor": (True, True), "PVD": (False, False), "FromPVD": (True, True), "VarDerived": (False, False), "NEDerived": (True, True), "NEStill": (False, False)}
+          "P": (False, False), "Q": (False, False), "M": (False, False), "DerivedFromProtDtor": (True, True), "PVD": (False, False), "FromPVD": (True, True), "VarDerived": (False, False), "NEDerived": (True, True), "NEStill": (False, False), "CM": (False, True), "CMI": (True, True)}
 
 
 def replay(ctx):
